@@ -33,6 +33,7 @@ def inputs(tier):
         out.append(dict(src='corpus', d=d))
     for d in corpus.cutouts(tier, radius=12.0):
         out.append(dict(src='corpus', d=d))
+    out += [dict(i, chains='case-twins') for i in out if i['src'] == 'corpus' and i['d']['t'] in ('pair', 'cluster')][:: (1 if tier == 'thorough' else 3)]
     for key in (('3SGB', '1HPX') if tier == 'quick' else ('3SGB', '1HPX', '4DFR')):
         out.append(dict(src='corpus', d=corpus.file_desc(key)))
     return out
@@ -41,8 +42,19 @@ def inputs(tier):
 def build(inp, seed):
     if inp['src'] == 'stream':
         items = c01.build_stream(inp['d'], seed)
-        return None if items is None else gen.S(items)
-    return corpus.build(inp['d'], seed)
+        s = None if items is None else gen.S(items)
+    else:
+        s = corpus.build(inp['d'], seed)
+    if s is not None and inp.get('chains') == 'case-twins':
+        # chain ids that differ only in case (A, a, B, b ...)
+        ids = []
+        for a in s.atoms:
+            if a.chain not in ids:
+                ids.append(a.chain)
+        m = dict(zip(ids, 'AaBbCcDdEeFfGg'))
+        for a in s.atoms:
+            a.chain = m[a.chain]
+    return s
 
 
 def plan(tier, seed):
